@@ -30,6 +30,11 @@ class Hamiltonian(CallableModel):
         hamiltonian = potential_energy + kinetic_energy
         return hamiltonian
 
+    def __call__(self, *args, **kwargs) -> Tensor:
+        # the value depends on the call arguments (momentum, mass matrix):
+        # it must not be served from the cache of a previous call
+        return self._call(*args, **kwargs)
+
     def sample_momentum(self, mass_matrix: Tensor) -> None:
         if mass_matrix.dim() == 1:
             momentum = Normal(
